@@ -183,7 +183,7 @@ class Translator:
         if k in ('CXXOperatorCallExpr', 'CXXMemberCallExpr', 'CallExpr'):
             cal = self.callee(node)
             if cal is not None:
-                if cal[0] in ('deref', 'ndidx'):
+                if cal[0] in ('deref', 'ndidx', 'ndadd'):
                     return True
                 f = self.funcs.get(cal[1]) if cal[0] == 'fn' else None
                 if f and f['monadic']:
@@ -212,9 +212,14 @@ class Translator:
                 return None
             nm = me['name']
             obj = me['inner'][0]
+            if nm == 'operator bool' and self.is_ndsize(obj):
+                return ('ndbool', obj)
             if nm == 'operator bool':
                 return ('optbool', obj)
             so = self.strip(obj)
+            if so.get('kind') == 'MemberExpr' and self.strip(so['inner'][0]).get('kind') == 'CXXThisExpr' and len(inner) == 1 and \
+                    (so['name'] + '_' + nm) in self.ambient:
+                return ('ambientcall', so['name'] + '_' + nm)
             if so.get('kind') == 'DeclRefExpr' and len(inner) == 1 and \
                     (so['referencedDecl']['name'] + '_' + nm) in self.ambient:
                 return ('ambientcall', so['referencedDecl']['name'] + '_' + nm)
@@ -246,6 +251,10 @@ class Translator:
                 return ('stridx', args[0], args[1])
             if nm == 'operator[]' and self.is_ndsize(args[0]):
                 return ('ndidx', args[0], args[1])
+            if nm == 'operator+' and len(args) == 2 and self.is_ndsize(args[0]) and self.is_ndsize(args[1]):
+                return ('ndadd', args[0], args[1])
+            if len(args) == 2 and self.is_ndsize(args[0]) and self.is_ndsize(args[1]) and nm in self.funcs_pending:
+                return ('fn', nm, args)
             if nm in ('operator==', 'operator!=') and len(args) == 2 and self.is_string(args[0]) and self.is_string(args[1]):
                 return ('streq', args[0], args[1], nm == 'operator!=')
             if nm == 'operator=':
@@ -383,6 +392,14 @@ class Translator:
                 return b, '(opt_is_some %s)' % t
             if cal[0] == 'ambientcall':
                 return [], cname(cal[1])
+            if cal[0] == 'ndbool':
+                b, t = self.expr(cal[1], cx)
+                return b, '(Z.ltb 0 (zlen %s))' % t
+            if cal[0] == 'ndadd':
+                b1, t1 = self.expr(cal[1], cx)
+                b2, t2 = self.expr(cal[2], cx)
+                v = cx.fresh('nd')
+                return b1 + b2 + [(v, '(nd_add %s %s)' % (t1, t2))], v
             if cal[0] == 'ndidx':
                 b1, t1 = self.expr(cal[1], cx)
                 b2, t2 = self.expr(cal[2], cx)
